@@ -7,10 +7,12 @@ package mailbox
 // responder writes one in the other direction. The reader is in lock-step and
 // expects record `expect` (0: fresh connection; 1: after honestly reading r0).
 // The relay builds the reader's input from up to `segments` segments, each:
-//   0 a slice [a,b) of the honest byte stream of this direction (both records)
-//   1 a junk stream of symbolic length
-//   2 a slice of the other direction's byte stream (reflection)
-//   3 a slice of the honest stream with one byte XORed by a non-zero mask
+//
+//	0 a slice [a,b) of the honest byte stream of this direction (both records)
+//	1 a junk stream of symbolic length
+//	2 a slice of the other direction's byte stream (reflection)
+//	3 a slice of the honest stream with one byte XORed by a non-zero mask
+//
 // (drop, duplicate, reorder, replay, truncate, inject, reflect and bit flips
 // are all instances). One ReadMessage: it returns either exactly the expected
 // record or an error. Together with the lock-step step (VH_C08_LockStep:
